@@ -12,6 +12,7 @@ package main
 import (
 	"io"
 	"log"
+	"os"
 	"strings"
 
 	. "verifharness/common"
@@ -62,33 +63,51 @@ func gen(a Args, out *Out) {
 	}
 	var jobs []job
 	var ins []Sx
-	for _, p := range plan {
-		r := rng.Fork()
-		for k := 0; k < p.n*mult; k++ {
-			kind, c := p.f(r)
-			for kind == "free-env-nontcp-unread" { // C03's known limitation (no half-close on a generic net.Conn), not a shutdown-safety matter
-				kind, c = p.f(r)
+	// VERIF_FOCUS_KINDS=kind1,kind2: spend the run on these generator classes only
+	focus := map[string]bool{}
+	for _, k := range strings.Split(os.Getenv("VERIF_FOCUS_KINDS"), ",") {
+		if k != "" {
+			focus[k] = true
+		}
+	}
+	rounds := 1
+	if len(focus) > 0 {
+		rounds = 12
+	}
+	for round := 0; round < rounds; round++ {
+		for _, p := range plan {
+			r := rng.Fork()
+			for k := 0; k < p.n*mult; k++ {
+				kind, c := p.f(r)
+				for kind == "free-env-nontcp-unread" { // C03's known limitation (no half-close on a generic net.Conn), not a shutdown-safety matter
+					kind, c = p.f(r)
+				}
+				if len(focus) > 0 && !focus[kind] {
+					continue
+				}
+				cc := c
+				jobs = append(jobs, job{kind, &cc})
+				ins = append(ins, c.Sx())
 			}
-			cc := c
-			jobs = append(jobs, job{kind, &cc})
-			ins = append(ins, c.Sx())
 		}
 	}
 	rb := rng.Fork()
-	for k := 0; k < 6*mult; k++ {
+	for k := 0; k < 6*mult && (len(focus) == 0 || focus["burst-race"]); k++ {
 		kind, in := connsim.BurstScenario(rb, 500)
 		jobs = append(jobs, job{kind, nil})
 		ins = append(ins, in)
 	}
 	rl := rng.Fork()
-	for k := 0; k < 10*mult; k++ {
+	for k := 0; k < 10*mult && len(focus) == 0; k++ {
 		kind, in := connsim.ListenerScenario(rl)
 		jobs = append(jobs, job{kind, nil})
 		ins = append(ins, in)
 	}
 	// always one listener whose hand-off channel is full and undrained when Close is called
-	jobs = append(jobs, job{"listener-backlog-full", nil})
-	ins = append(ins, Ints(2, int64(rl.Range(1, 2)), 140, 0, int64(rl.Next()>>2)))
+	if len(focus) == 0 {
+		jobs = append(jobs, job{"listener-backlog-full", nil})
+		ins = append(ins, Ints(2, int64(rl.Range(1, 2)), 140, 0, int64(rl.Next()>>2)))
+	}
 	results := connsim.RunBatch(ins)
 	for i, j := range jobs {
 		out.Case(j.kind, true, ins[i], results[i].Obs)
